@@ -299,6 +299,15 @@ func Weave(dir string) (*Report, error) {
 				}
 				if path == "os" || path == "io/ioutil" || path == "math/rand" || path == "os/signal" || path == "os/exec" || path == "syscall" {
 					full := path + "." + x.Sel.Name
+					// not seams: sentinel error values (os.ErrPermission, ...), pure predicates
+					// and helpers (os.IsTimeout, os.Expand, ...)
+					pure := map[string]bool{"Expand": true, "Getpagesize": true, "SameFile": true, "NewSyscallError": true}
+					if v, isVar := info.Uses[x.Sel].(*types.Var); isVar && strings.HasPrefix(v.Name(), "Err") {
+						return true
+					}
+					if fn, isFunc := info.Uses[x.Sel].(*types.Func); isFunc && (strings.HasPrefix(fn.Name(), "Is") || pure[fn.Name()]) {
+						return true
+					}
 					if !harmless[full] {
 						if _, isType := info.Uses[x.Sel].(*types.TypeName); !isType {
 							if _, isConst := info.Uses[x.Sel].(*types.Const); !isConst {
@@ -432,12 +441,25 @@ func Weave(dir string) (*Report, error) {
 				mexpr = mv
 				xs = mv
 			}
+			// An entry deleted by the loop body before it is reached is not produced
+			// by a range statement: skip keys that are gone (not for floating-point
+			// keys, where a NaN key is never found by lookup although it is ranged over).
+			gone := fmt.Sprintf("if _, simOk%d := %s[%s.(%s)]; !simOk%d { continue }; ", counter, mexpr, kv, kt, counter)
+			if bt, ok := mt.Key().Underlying().(*types.Basic); ok && bt.Info()&(types.IsFloat|types.IsComplex) != 0 {
+				gone = ""
+			}
+			if _, ok := mt.Key().Underlying().(*types.Interface); ok {
+				gone = ""
+			}
 			var b bytes.Buffer
 			b.WriteString(pre)
 			if rs.Key == nil {
-				fmt.Fprintf(&b, "for range simrt.Order(%q, %s) { simrt.Tick(); ", site(rs.Pos()), xs)
+				fmt.Fprintf(&b, "for _, %s := range simrt.Order(%q, %s) { simrt.Tick(); %s", kv, site(rs.Pos()), xs, gone)
+				if gone == "" {
+					fmt.Fprintf(&b, "_ = %s; ", kv)
+				}
 			} else {
-				fmt.Fprintf(&b, "for _, %s := range simrt.Order(%q, %s) { simrt.Tick(); ", kv, site(rs.Pos()), xs)
+				fmt.Fprintf(&b, "for _, %s := range simrt.Order(%q, %s) { simrt.Tick(); %s", kv, site(rs.Pos()), xs, gone)
 				if !isBlank(rs.Key) {
 					fmt.Fprintf(&b, "%s %s %s.(%s); ", render(rs.Key.Pos(), rs.Key.End()), tok, kv, kt)
 				}
